@@ -1,2 +1,64 @@
-(** * C12 — exported state re-imports and preserves what users rely on (placeholder, filled below) *)
-From Irismod Require Import Genesis.Check.
+(** * C12 — the exported state re-imports and preserves what users rely on.
+
+    Per module M of the ten: [M.export : state -> genesis], [M.validate : genesis -> bool],
+    [M.import : genesis -> option state] ([None] = InitGenesis panics), [M.queries] (the durable
+    user-visible objects), all in [coq/Genesis/<M>.v], tied to the Go code on every run by the
+    correspondence of [Genesis/<M>.v : corr_run] (same exported genesis, same validation verdict,
+    same import outcome, same imported state, same second export).  [M.invb] is the decidable
+    description of the states a history can reach; the harness evaluates it on every state it
+    exports.  Statements only; proofs are in [Genesis/<M>Proofs.v]. *)
+From Irismod Require Import Genesis.Store.
+From Irismod Require Genesis.Record Genesis.RecordProofs.
+
+(** ** record *)
+Module RecordC12.
+Import Genesis.Record Genesis.RecordProofs.
+
+(** the exported genesis of every reachable state validates *)
+Theorem record_export_validates :
+  forall (ord : rid -> Z) (s : state), invb ord s = true -> validate (export s) = true.
+Proof. exact record_export_validates_lemma. Qed.
+Print Assumptions record_export_validates.
+
+(** importing a validated genesis does not panic *)
+Theorem record_import_total :
+  forall (ord : rid -> Z) (g : genesis), validate g = true -> import ord g <> None.
+Proof. exact record_import_total_lemma. Qed.
+Print Assumptions record_import_total.
+
+(** export . import . export = export FAILS: ids are recomputed from a fresh counter on import,
+    so the second export can be ordered differently (known finding record-ids-change-on-import) *)
+Theorem record_export_fixpoint_refuted :
+  exists (ord : rid -> Z) (s s' : state),
+    invb ord s = true /\ import ord (export s) = Some s' /\ export s' <> export s.
+Proof. exact record_export_fixpoint_refuted_lemma. Qed.
+Print Assumptions record_export_fixpoint_refuted.
+
+(** ... what does hold: the second export has exactly the records of the first (as a set) *)
+Theorem record_export_fixpoint_partial :
+  forall (ord : rid -> Z) (s s' : state),
+    import ord (export s) = Some s' -> forall r : rec, In r (export s') <-> In r (export s).
+Proof. exact record_export_fixpoint_partial_lemma. Qed.
+Print Assumptions record_export_fixpoint_partial.
+
+(** queries are NOT preserved: an id that reads back on A reads nothing on B *)
+Theorem record_queries_preserved_refuted :
+  exists (ord : rid -> Z) (s s' : state) (id : rid) (r : rec),
+    invb ord s = true /\ import ord (export s) = Some s' /\ query s id = Some r /\ query s' id = None.
+Proof. exact record_queries_preserved_refuted_lemma. Qed.
+Print Assumptions record_queries_preserved_refuted.
+
+(** ... what does hold: every record readable on A is readable on B under the id derived from the
+    same record and some (generally different) counter *)
+Theorem record_queries_preserved_partial :
+  forall (ord : rid -> Z) (s s' : state),
+    import ord (export s) = Some s' ->
+    forall (id : rid) (r : rec), query s id = Some r -> exists c : Z, query s' (r, c) = Some r.
+Proof. exact record_queries_preserved_partial_lemma. Qed.
+Print Assumptions record_queries_preserved_partial.
+
+(** non-vacuity: a reachable-looking state with two records; its export validates and imports *)
+Example record_nonvacuous :
+  invb wit_ord wit_s = true /\ validate (export wit_s) = true /\ import wit_ord (export wit_s) = Some wit_s'.
+Proof. repeat split; vm_compute; reflexivity. Qed.
+End RecordC12.
